@@ -1,9 +1,157 @@
-import ShkModel.Model.Prompt
-/-! # C04 (theorems being proved separately; placeholder) -/
+import ShkModel.Lemmas.Prompt
+/-!
+# C04 — scenes run in script order, behind barriers, never ahead of the tempo
+
+Model: `ShkModel/Model/Prompt.lean` (`runLine`, `runScene`, `runScenes`, `loop`, `perform` mirror
+`prompter.prompt` / `runScene` / `runLine` of `pkg/cmd/prompt.go` over an abstract clock).  All that
+the operating system decides — duration and exit status of each command, the delay before each
+command, scene and act, the `repeat time` decisions — is the input `env : Env` (total functions), so
+"for every `env`" means: for every choice of durations and every scheduling.  `fuel` bounds the
+number of act occurrences (`repeat always` never ends); every theorem holds for every fuel.
+
+A trace is the list of records of the performed actions; `r.pos.actOcc` counts act *occurrences*
+(it grows with every act played, repetitions included), so "group (actOcc, scene) before group
+(actOcc', scene')" covers acts in sequence, repetitions in sequence and scene groups in sequence.
+-/
 namespace Shk.C04
 open Shk.Prompt
 
-theorem runLine_nil (env : Env) (ao a sc ln : Nat) (actor : String) (k t : Nat) :
-    runLine env ao a sc ln actor k t [] = ([], t, true) := rfl
+variable (env : Env) (play : Play) (rp : Repeat) (fuel : Nat)
+
+/-- Every record is well-formed: start ≤ stop; its position is a position of the script (act,
+scene, line and step indices in range) and actor, action and `?` mark are those of the script; the
+recorded duration and status are those the command experienced. -/
+theorem records_wellformed : ∀ r ∈ (perform env play rp fuel).1, WellFormed env play r :=
+  fun r hr => ((perform_step env play rp fuel).src r hr).wellFormed
+
+/-- Steps of one line (same act occurrence, scene, line) run in the listed order, each starting
+after the previous one stopped. -/
+theorem line_order : lineOrderOk (perform env play rp fuel).1 = true :=
+  (lineOrderOk_iff _).mpr (perform_step env play rp fuel).lo
+
+/-- … the same, spelled out. -/
+theorem line_order_explicit : ∀ r ∈ (perform env play rp fuel).1, ∀ q ∈ (perform env play rp fuel).1,
+    r.pos.actOcc = q.pos.actOcc → r.pos.scene = q.pos.scene → r.pos.line = q.pos.line →
+    r.pos.step < q.pos.step → r.stop ≤ q.start :=
+  fun r hr q hq h1 h2 h3 h4 => (perform_step env play rp fuel).lo r hr q hq ⟨h1, h2, h3⟩ h4
+
+/-- **Barrier**: no action of a group starts before every action of every earlier group (earlier
+act occurrence, or same occurrence and earlier scene) has finished.  Hence acts are sequential,
+repetitions are sequential and the scene groups of an act are sequential. -/
+theorem barrier : barrierOk (perform env play rp fuel).1 = true :=
+  (barrierOk_iff _).mpr (perform_step env play rp fuel).bo
+
+/-- … the same, spelled out. -/
+theorem barrier_explicit : ∀ r ∈ (perform env play rp fuel).1, ∀ q ∈ (perform env play rp fuel).1,
+    (r.pos.actOcc < q.pos.actOcc ∨ (r.pos.actOcc = q.pos.actOcc ∧ r.pos.scene < q.pos.scene)) →
+    r.stop ≤ q.start :=
+  fun r hr q hq h => (perform_step env play rp fuel).bo r hr q hq ((groupBefore_iff _ _).mpr h)
+
+/-- Every record belongs to a recorded act occurrence, of the act it names, whose start time is
+`actStartOf`. -/
+theorem act_occurrence_recorded : ∀ r ∈ (perform env play rp fuel).1,
+    (r.pos.actOcc, r.pos.act, actStartOf env play rp fuel r.pos.actOcc) ∈ performOccs env play rp fuel := by
+  intro r hr
+  obtain ⟨_, _, _, t0, _, _, _, _, h4, _⟩ := (perform_step env play rp fuel).src r hr
+  have := ((perform_step env play rp fuel).occs_bnd _ h4).2.2
+  simp only [actStartOf]; simp only [] at this; rw [this]; exact h4
+
+/-- **Tempo**: no action of scene `k` starts earlier than `waitUntil k` (= column index × tempo in
+the compiled play) after the start of its act occurrence. -/
+theorem tempo_lower_bound :
+    tempoOk play (actStartOf env play rp fuel) (perform env play rp fuel).1 = true := by
+  simp only [tempoOk, List.all_eq_true]
+  intro r hr
+  obtain ⟨act, s, l, t0, t1, h1, h2, _, h4, h5, h6, _⟩ := (perform_step env play rp fuel).src r hr
+  have hs := ((perform_step env play rp fuel).occs_bnd _ h4).2.2
+  have hge := (runLine_rec env _ _ _ _ l.actor 0 t1 l.steps r h6).start_ge
+  have hb : (play[r.pos.act]?).bind (·[r.pos.scene]?) = some s := by simp [h1, h2]
+  have hs' : actStartOf env play rp fuel r.pos.actOcc = t0 := hs
+  rw [hb]
+  exact decide_eq_true (by rw [hs']; omega)
+
+/-- … the same, spelled out. -/
+theorem tempo_lower_bound_explicit : ∀ r ∈ (perform env play rp fuel).1, ∀ act s,
+    play[r.pos.act]? = some act → act[r.pos.scene]? = some s →
+    actStartOf env play rp fuel r.pos.actOcc + s.waitUntil ≤ r.start := by
+  intro r hr act s h1 h2
+  have h := tempo_lower_bound env play rp fuel
+  simp only [tempoOk, List.all_eq_true] at h
+  have := h r hr
+  have hb : (play[r.pos.act]?).bind (·[r.pos.scene]?) = some s := by simp [h1, h2]
+  rw [hb] at this
+  simpa using this
+
+/-- A later act occurrence starts at or after every stop of an earlier one (in particular
+occurrence `ao + 1` after every action of occurrence `ao`). -/
+theorem act_starts_monotone : ∀ r ∈ (perform env play rp fuel).1, ∀ o ∈ performOccs env play rp fuel,
+    r.pos.actOcc < o.1 → r.stop ≤ actStartOf env play rp fuel o.1 := by
+  intro r hr o ho hlt
+  have h1 := (perform_step env play rp fuel).occs_mono.1 r hr o ho hlt
+  have h2 := ((perform_step env play rp fuel).occs_bnd o ho).2.2
+  simp only [actStartOf]; rw [h2]; exact h1
+
+/-- Act occurrences start in the order of their numbers. -/
+theorem act_starts_ordered : ∀ o ∈ performOccs env play rp fuel, ∀ o' ∈ performOccs env play rp fuel,
+    o.1 < o'.1 → actStartOf env play rp fuel o.1 ≤ actStartOf env play rp fuel o'.1 := by
+  intro o ho o' ho' hlt
+  have h1 := (perform_step env play rp fuel).occs_mono.2 o ho o' ho' hlt
+  have h2 := ((perform_step env play rp fuel).occs_bnd o ho).2.2
+  have h3 := ((perform_step env play rp fuel).occs_bnd o' ho').2.2
+  simp only [actStartOf]; rw [h2, h3]; exact h1
+
+/-- **Distinct lines run concurrently**: within a scene started at `t`, the records of line `ln` are
+exactly those of that line run alone from `t`, and they depend on the environment only through the
+decisions for that very line — not on how long the other lines take or whether they fail. -/
+theorem concurrent_lines_independent (env' : Env) (ao a sc t : Nat) (lines : List Line) (ln : Nat) (l : Line)
+    (hl : lines[ln]? = some l)
+    (henv : ∀ k, env.occ ⟨ao, a, sc, ln, k⟩ = env'.occ ⟨ao, a, sc, ln, k⟩) :
+    (runScene env ao a sc t 0 lines).1.filter (fun r => r.pos.line == ln) =
+      (runLine env' ao a sc ln l.actor 0 t l.steps).1 := by
+  have := runScene_filter env ao a sc t 0 lines ln l hl
+  simp only [Nat.zero_add] at this
+  rw [this, runLine_congr env env' ao a sc ln l.actor henv]
+
+/-- The scene ends (barrier / WaitGroup) no earlier than any of its actions, and starts them no
+earlier than its own start. -/
+theorem scene_window (ao a sc t : Nat) (lines : List Line) :
+    ∀ r ∈ (runScene env ao a sc t 0 lines).1,
+      t ≤ r.start ∧ r.start ≤ r.stop ∧ r.stop ≤ (runScene env ao a sc t 0 lines).2.1 :=
+  runScene_bnd env ao a sc t 0 lines
+
+/-! ## Non-vacuity: a concrete performance (`Shk.Prompt.Ex`) -/
+
+-- seven actions are performed, in three act occurrences (act 2 is played twice)
+example : (perform Ex.env Ex.play Ex.rp 20).1.length = 7 := by decide
+example : (perform Ex.env Ex.play Ex.rp 20).1.map (·.pos.actOcc) = [0, 0, 0, 0, 0, 1, 2] := by decide
+-- records in different groups exist, so the barrier statement is not vacuous
+example : ∃ r ∈ (perform Ex.env Ex.play Ex.rp 20).1, ∃ q ∈ (perform Ex.env Ex.play Ex.rp 20).1,
+    r.pos.groupBefore q.pos = true ∧ r.stop ≤ q.start := by decide
+-- two steps of one line exist, so the line-order statement is not vacuous
+example : ∃ r ∈ (perform Ex.env Ex.play Ex.rp 20).1, ∃ q ∈ (perform Ex.env Ex.play Ex.rp 20).1,
+    r.pos.actOcc = q.pos.actOcc ∧ r.pos.scene = q.pos.scene ∧ r.pos.line = q.pos.line ∧
+      r.pos.step < q.pos.step := by decide
+-- two lines of one scene overlap in time: they do run concurrently
+example : ∃ r ∈ (perform Ex.env Ex.play Ex.rp 20).1, ∃ q ∈ (perform Ex.env Ex.play Ex.rp 20).1,
+    r.pos.actOcc = q.pos.actOcc ∧ r.pos.scene = q.pos.scene ∧ r.pos.line ≠ q.pos.line ∧
+      r.start < q.stop ∧ q.start < r.stop := by decide
+-- `concurrent_lines_independent`: its hypotheses hold for line 0 of the first scene with an
+-- environment in which line 1 is slow and fails; line 0's records are the same in both
+example : (∀ k, Ex.env.occ ⟨0, 0, 0, 0, k⟩ = Ex.envSlowB.occ ⟨0, 0, 0, 0, k⟩) ∧
+    Ex.env.occ ⟨0, 0, 0, 1, 0⟩ ≠ Ex.envSlowB.occ ⟨0, 0, 0, 1, 0⟩ := ⟨fun _ => rfl, by decide⟩
+example : (runScene Ex.env 0 0 0 3 0 [⟨"a", [⟨"x", false⟩, ⟨"y", true⟩]⟩, ⟨"b", [⟨"z", false⟩]⟩]).1.filter
+      (fun r => r.pos.line == 0) =
+    (runScene Ex.envSlowB 0 0 0 3 0 [⟨"a", [⟨"x", false⟩, ⟨"y", true⟩]⟩, ⟨"b", [⟨"z", false⟩]⟩]).1.filter
+      (fun r => r.pos.line == 0) := by decide
+-- the act starts, and the spec predicates evaluated on the concrete trace
+example : (performOccs Ex.env Ex.play Ex.rp 20) = [(0, 0, 2), (1, 1, 105), (2, 1, 138)] := by decide
+example : barrierOk (perform Ex.env Ex.play Ex.rp 20).1 = true := by decide
+example : lineOrderOk (perform Ex.env Ex.play Ex.rp 20).1 = true := by decide
+example : tempoOk Ex.play (actStartOf Ex.env Ex.play Ex.rp 20) (perform Ex.env Ex.play Ex.rp 20).1 = true := by
+  decide
+-- the predicates do reject wrong traces: swap start and stop of two groups
+example : barrierOk [⟨⟨0, 0, 0, 0, 0⟩, "a", "x", 0, 10, true, false⟩, ⟨⟨0, 0, 1, 0, 0⟩, "a", "x", 9, 12, true, false⟩] = false := by
+  decide
+example : tempoOk Ex.play (fun _ => 0) [⟨⟨0, 0, 1, 0, 0⟩, "a", "x", 49, 60, true, false⟩] = false := by decide
 
 end Shk.C04
